@@ -203,6 +203,9 @@ void harness(void)
     sym_inputs();
     { CTX_T nd; ctx = nd; }
     for (int i = 0; i < MAXBLK; i++) ASSUME(sym_allocfail[i] == 0);
+#ifdef BACKSEL
+    sym_has128 = (BACKSEL >= 1); sym_has256 = (BACKSEL >= 2);      /* back end enumerated: a symbolic batch size would drive the driver loops */
+#endif
     memcpy(&o, sym_handle, sizeof o);
     { OBJ_T t; memset(&t, 0, sizeof t); CHECK(P(init)(&t) == 1, "init succeeds"); o.vtable = t.vtable; o.parallel_size = t.parallel_size; vh_free(t.ctx); }   /* back end chosen symbolically */
     o.ctx = &ctx;
